@@ -189,11 +189,12 @@ pub fn runs_for(prop: &str, thorough: bool) -> u64 {
         }
     }
     let quick = match prop {
-        "C10" => 24_000,
-        "C12" => 32_000,
-        _ => 40_000,
+        "C10" => 110_000,
+        "C11" => 56_000,
+        "C12" => 240_000,
+        _ => 240_000,
     };
-    if thorough { quick * 40 } else { quick }
+    if thorough { quick * 12 } else { quick }
 }
 
 fn hist_hash(r: &HistResult) -> u64 {
